@@ -43,6 +43,23 @@ def cases(rng, tier, Case):
             d = d + "\n\n" + wrap(rng, rng.choice(HOSTILE))
         cfg = mdgen.gen_cfg(rng, forbid="xX")
         res.append(Case("parse %s 100 TR %s" % (cfg, hx(d)), "gen", {"cfg": cfg, "src": hx(d)}))
+    # content beyond the nesting limit, long code listings with the only special characters at the very end, and parsers that
+    # had the raw-HTML rules once (added, used, removed again): still no raw markup
+    for h in HOSTILE[:8] + ["<div>x</div>", "<b>"]:
+        for nest in (0, 1, 2, 3):
+            for pre in ("> " * (nest + 1), "- " * (nest + 1), "> - " * nest + "> ", "1. " * (nest + 2)):
+                d = pre + h + "\n\n" + h
+                cfg = rng.choice(["Cs", "CsS", mdgen.gen_cfg(rng, forbid="xX8")])
+                res.append(Case("parse %s %d TR %s" % (cfg, nest, hx(d)), "nest", {"cfg": cfg, "src": hx(d)}))
+    for ln in (255, 256, 257, 270, 271, 272, 287, 300, 511, 513, 1025):
+        for tail in ("<", "<b>", "&", "\"", "a<script>", "x>y"):
+            body = ("lorem ipsum dolor sit amet " * 60)[:ln - len(tail)] + tail
+            for d in ("```\n" + body + "\n```", "    " + body, "~~~ info\n" + body + "\n" + body[-20:] + "\n~~~", "`" + body + "`"):
+                res.append(Case("parse Cs 100 TR %s" % hx(d), "longcode", {"cfg": "Cs", "src": hx(d)}))
+    for h in HOSTILE[:6] + ["<div>\nx\n</div>", "a <b>c</b>"]:
+        for script in ("+CW;P%s;-x;-X;P%s", "+C;+x;+X;P%s;-X;-x;P%s", "+CWs;P%s;-X;P%s;-x;P%s", "+W;+C;-x;-X;P%s"):
+            docs = tuple(hx(rng.choice(["warm *up* <i>x</i>", h])) for _ in range(script.count("%s") - 1)) + (hx(h + "\n\n" + wrap(rng, h)),)
+            res.append(Case("hist 100 R %s" % (script % docs), "history", {"cfg": "hist", "src": hx(h), "hist": 1}, compare=False))
     # escape_html unit correspondence
     for s in ["", "&", "<", ">", "\"", "'", "&amp;", "a<b>c\"d&e'f", "\0", "é<", " "] + [chr(c) for c in range(1, 128)]:
         res.append(Case("esc %s" % hx(s), "esc", {"esc": hx(s)}))
@@ -60,6 +77,16 @@ def oracle(case, io, mo):
         want = src.replace(b"&", b"&amp;").replace(b"<", b"&lt;").replace(b">", b"&gt;").replace(b'"', b"&quot;")
         got = unhx(io[3:].strip())
         return None if got == want else "escape_html(%r) = %r" % (src, got)
+    if "hist" in case.params:
+        last = [x for x in io[3:].split(";") if x.startswith("P[")][-1][2:-1]
+        if not last.startswith("ok"):
+            return "did not return normally: " + last[:120]
+        f = fields(last)
+        for key in ("html", "xhtml"):
+            ok, msg, _ = read_html(unhx(f[key]), sourcepos=False)
+            if not ok:
+                return "%s output after removing the raw-HTML rules is not well-formed renderer markup: %s" % (key, msg)
+        return None
     f = fields(io)
     sp = "S" in case.params["cfg"]
     for key in ("html", "xhtml"):
